@@ -2,12 +2,21 @@
 
 Resolve.tla   <-> fclient.ResolveServer / LookupWellKnown / Client (destinationTripper) with in-process
                   stubs at http.DefaultTransport and net.DefaultResolver (loopback miekg/dns server)
+ResolveFn.tla     the same algorithm as a function of (server name, world); Resolve_gen checks FnAgrees
+ResolveSeq.tla <-> ONE fclient.Client sending a sequence of requests to different, related server names of one
+                  world (every name has a well-known document and SRV records of its own): each request is
+                  judged by the resolution of its own server name, whatever the client remembers
 NetPolicy.tla <-> the dialer control function (overlay accessor) and real loopback connections made by a
                   Client configured with WithAllowDenyNetworks
 """
 import json
 
+import os
+
 from vlib.core import MachineryError
+
+# planted defects of the client design (CONSTANT Fault of ResolveSeq.tla), each refuted by TLC
+SEQ_FAULTS = ["shared_tls", "alias_deleg", "alias_dest", "key_host", "key_sni"]
 
 
 def _group(records):
@@ -57,6 +66,9 @@ def run(ctx):
         "literal targets are compared at the ResolveServer level only",
         "an IPv4-mapped IPv6 address is the IPv4 address it embeds; ranges of one family contain no address of the other",
         "cache lifetime: +-2 s against the real clock; the code documents no lower / upper bound on the lifetime",
+        "request sequences through one client: a client may remember the resolution of a server name and spare a LATER request "
+        "for the SAME server name its lookups (no lifetime is demanded of that memory; the world does not change during a "
+        "sequence); every destination is a live loopback listener, hence every port-less name of those worlds has an SRV record",
     ]
     tier = ctx.tier
     # ---- resolution
@@ -67,6 +79,26 @@ def run(ctx):
     rc = ctx.tlc("Resolve_gen", "Resolve_gen_cache.cfg")
     ctx.log("resolve: %d scenarios (%d behaviours), cache: %d" % (len(scen), len(r.records), len(rc.records)))
     ctx.replay_and_compare("c16resolve", scen + rc.records, pkg="c16")
+    # ---- one client, several requests, different server names (ResolveSeq.tla)
+    rs = ctx.tlc("ResolveSeq_gen", "ResolveSeq_gen_%s.cfg" % tier)
+    if not rs.records:
+        raise MachineryError("ResolveSeq_gen produced no scenario")
+    ctx.log("sequences through one client: %d" % len(rs.records))
+    ctx.replay_and_compare("c16resolve", rs.records, pkg="c16")
+    # the invariant must refute planted defects of the client design (it is not vacuous)
+    states0, trans0 = ctx.states, ctx.transitions
+    faults = SEQ_FAULTS if tier != "quick" else [SEQ_FAULTS[ctx.seed % len(SEQ_FAULTS)]]
+    for fault in faults:
+        name = "ResolveSeq_fault_%s.cfg" % fault
+        with open(os.path.join(ctx._spec_dir(), name), "w") as f:
+            f.write('SPECIFICATION Spec\nCONSTANTS\n  Fault = "%s"\n  Depth = "quick"\n'
+                    'INVARIANTS PerRequestTarget\nCHECK_DEADLOCK FALSE\n' % fault)
+        fr = ctx.tlc("ResolveSeq_gen", name, allow_violation=True, expect_records=False, workers=2, timeout=300)
+        if fr.violated != "PerRequestTarget":
+            raise MachineryError("ResolveSeq.tla with the planted client defect %s: expected a violation of PerRequestTarget, "
+                                 "TLC reports %s" % (fault, fr.violated))
+    ctx.states, ctx.transitions = states0, trans0      # refutation runs stop at the first counterexample
+    ctx.notes["planted_model_faults_caught"] = ["%s->PerRequestTarget" % f for f in faults]
     # ---- network policy
     n1 = ctx.tlc("NetPolicy_gen", "NetPolicy_gen_ctl_%s.cfg" % tier)
     n2 = ctx.tlc("NetPolicy_gen", "NetPolicy_gen_e2e_%s.cfg" % tier)
@@ -75,7 +107,8 @@ def run(ctx):
     ctx.exhaustive = True
     ctx.notes["rule"] = (
         "every behaviour of Resolve.tla over (server-name shape x well-known outcome x SRV outcomes of the names the algorithm "
-        "reads x latitude) and every NetPolicy.tla scenario (allow x deny sequences up to the configured length x candidate "
+        "reads x latitude), every ResolveSeq.tla scenario (sequence of 2-4 requests of one client over 6 related server names x "
+        "well-known documents and SRV kinds of the hosts the sequence reads) and every NetPolicy.tla scenario (allow x deny sequences up to the configured length x candidate "
         "address x network / way of reaching) within the cfg bounds; distinct = (name shape, well-known class, SRV class, "
-        "outcome variant, trip) resp. (family, network, list shapes, reach, verdict) classes")
-    ctx.notes["constants"] = "Resolve_gen_%s.cfg Resolve_gen_cache.cfg NetPolicy_gen_ctl_%s.cfg NetPolicy_gen_e2e_%s.cfg" % (tier, tier, tier)
+        "outcome variant, trip), (relations of the requests to their predecessors, steps) resp. (family, network, list shapes, reach, verdict) classes")
+    ctx.notes["constants"] = "Resolve_gen_%s.cfg Resolve_gen_cache.cfg ResolveSeq_gen_%s.cfg NetPolicy_gen_ctl_%s.cfg NetPolicy_gen_e2e_%s.cfg" % (tier, tier, tier, tier)
